@@ -548,3 +548,17 @@ theorem derives_unparse_clauses : ∀ (o : Token) (cs : List (Token × List AST)
       · exact h4 sg hsg
 end
 end wn
+
+/-- the tree does not depend on the checker: a derivation under `chk` is one under "accept all" -/
+theorem Derives.weaken {g : Grammar} {chk : Bytes → Option Cause} {toks : List Token} {ns : List AST}
+    (h : Derives g chk toks ns) : Derives g (fun _ => none) toks ns := by
+  induction h with
+  | nil => exact .nil
+  | text t rest ns ht _ ih => exact .text t rest ns ht ih
+  | obj t rest ns ht _ _ ih => exact .obj t rest ns ht rfl ih
+  | trimL t rest ns ht _ ih => exact .trimL t rest ns ht ih
+  | trimR t rest ns ht _ ih => exact .trimR t rest ns ht ih
+  | tag t rest ns ht _ ih => exact .tag t rest ns ht ih
+  | comment o c interior rest ns ho hi hc _ ih => exact .comment o c interior rest ns ho hi hc ih
+  | raw o c interior rest ns ho hi hc _ ih => exact .raw o c interior rest ns ho hi hc ih
+  | block o e body bns segs rest ns ho _ hcl _ he _ ihb ihs ihr => exact .block o e body bns segs rest ns ho ihb hcl ihs he ihr
